@@ -82,7 +82,7 @@ func c41XGen(g *vkit.Rand, from, to, how, mode, fam string) c41Case {
 		return rules[c41RuleNames[rule]], true
 	}
 	s.Rules = rules
-	s.NextProtos = alpnLists[g.Intn(len(alpnLists)-1)]
+	s.NextProtos = alpnLists[g.Intn(srvAlpnN)]
 	s.TicketKey = 5
 	if mode == "sid-raw" {
 		s.TicketsDisabled, s.UseCache = true, true
